@@ -509,6 +509,12 @@ def check(desc, ex):
                 t0, ttl, bb = regs[i]
                 t1 = regs[i + 1][0]
                 stop = [tu for tu in T.unregs if t0 - EPS <= tu <= t1 + EPS]
+                # register() called again around t0 (another time-to-live): the old and the new registration may reach the
+                # BBMD in either order, the one processed last need not be the one the device renews by
+                raced = [c for c in T.calls if c[1] == 'register' and abs(c[0] - t0) <= 3.0]
+                if raced and len([c for c in T.calls if c[1] == 'register']) > 1:
+                    w.probe('c13-reregistration-race')
+                    continue
                 if ttl > 0 and not stop and t1 - t0 > ttl + EPS:
                     viol('C13.d', 'late-renewal', 'foreign device %s renewed its %ds registration after %.2fs' % (fd_label, ttl, t1 - t0))
             if regs:
